@@ -72,10 +72,7 @@ func gobSources(tier string) []*Dec {
 	for _, v := range WVecs(3, S7) {
 		base = append(base, mkWords(false, v, 0, 0, 0))
 	}
-	J := 10
-	if tier == "thorough" {
-		J = 30
-	}
+	J := 30
 	for _, s := range RunLengthStrings(J) {
 		base = append(base, mkCoef(false, mustInt(s), 0, uint32(len(s)), 0))
 	}
@@ -198,7 +195,7 @@ func hostileCase(c *Ctx, buf []byte, desc func() string, pre int) {
 }
 
 func gobLayers(tier string) []Layer {
-	thorough := tier == "thorough"
+	_ = tier
 	var layers []Layer
 	var srcs []*Dec
 	nsrc := len(gobSources(tier))
@@ -288,7 +285,7 @@ func gobLayers(tier string) []Layer {
 	layers = append(layers, Layer{
 		Name:   "J2-all-short-payloads",
 		Units:  258,
-		Bounds: "every byte string of length 0..3 (16 843 009 payloads) and every 4-byte string starting with the valid version byte 01 decoded into a zero-value receiver: no panic; error or canonical receiver",
+		Bounds: "every byte string of length 0..3 (16 843 009 payloads) and every 4-byte string starting with the valid version byte 01 (16 777 216 more) decoded into a zero-value receiver: no panic; error or canonical receiver",
 		Run: func(c *Ctx, u int) {
 			switch {
 			case u == 256:
@@ -309,11 +306,8 @@ func gobLayers(tier string) []Layer {
 					for b3 := 0; b3 < 256; b3++ {
 						b := []byte{byte(u), byte(b2), byte(b3)}
 						hostileCase(c, b, func() string { return fmt.Sprintf("payload % x", b) }, preFresh)
-						if u == 1 && (thorough || b3%4 == 0) {
-							step := 5
-							if thorough {
-								step = 1
-							}
+						if u == 1 {
+							step := 1
 							for b4 := 0; b4 < 256; b4 += step {
 								bb := []byte{1, byte(b2), byte(b3), byte(b4)}
 								hostileCase(c, bb, func() string { return fmt.Sprintf("payload % x", bb) }, preFresh)
